@@ -29,6 +29,8 @@ FIVE = ("nameplate_sides", "nameplates", "messages", "mailbox_sides", "mailboxes
 
 def run(ctx):
     model = ctx.model
+    from .. import roles as _roles
+    R = _roles.get(model)
     interp = model.interp
     ctx.rule("R13.exh", "every mailbox row is classified into exactly one set")
     ctx.rule("R13.cover", "an old mailbox is deleted from all five tables in one "
@@ -46,7 +48,7 @@ def run(ctx):
     done = set()
     for p in timer:
         for e, loops in all_events(p, ("loop",)):
-            if id(e) in done or e["func"] != "AppNamespace.prune" or not e["iter"]:
+            if id(e) in done or e["func"] != R.sweep_app or not e["iter"]:
                 continue
             done.add(id(e))
             it = strip_wrappers(e["iter"])
@@ -91,10 +93,10 @@ def run(ctx):
     napps = 0
     for p in timer[:4]:
         for e, loops in all_events(p, ("loop",)):
-            if e["func"] != "Server.prune_all_apps" or loops:
+            if e["func"] != R.sweep_all or loops:
                 continue
             # the app loop is the one whose body reaches the per-app sweep
-            if not any(x["k"] == "call" and x["callee"] == "AppNamespace.prune"
+            if not any(x["k"] == "call" and x["callee"] == R.sweep_app
                        for alt in e["alts"] for x, _ in flat_events(alt["events"])):
                 continue
             napps += 1
@@ -118,8 +120,8 @@ def run(ctx):
                 ctx.ob("R13.apps", "app set unions %s" % ",".join(app_tables), not missing, e,
                        "" if not missing else "apps that only have rows in %s are never "
                        "swept" % missing)
-            every = all(alt["out"] == "normal" and any(
-                x["k"] == "call" and x["callee"] == "AppNamespace.prune"
+            every = all(alt["out"] in ("normal", "continue") and any(
+                x["k"] == "call" and x["callee"] == R.sweep_app
                 for x, _ in flat_events(alt["events"])) for alt in e["alts"])
             ctx.ob("R13.apps", "every iteration reaches the per-app sweep", every and
                    bool(e["alts"]), e, "" if every else "some iteration skips the per-app "
@@ -229,7 +231,7 @@ def run(ctx):
     # the sweep call event really has the handler on its stack
     for p in timer[:1]:
         for e, _ in all_events(p, ("call",)):
-            if e["callee"] == "Server.prune_all_apps":
+            if e["callee"] == R.sweep_all:
                 ok = any("Exception" in h[0] or "BaseException" in h[0] for h in e["handlers"])
                 ctx.ob("R13.timer", "sweep runs under an Exception handler (event stack)", ok, e)
     # R13.noraise
